@@ -146,25 +146,27 @@ class StdioClient:
         try:
             assert self.process and self.process.stdout
 
-            buffer = ""
+            buffer = b""
             logger.debug("stdout_reader started")
 
             async for chunk in self.process.stdout:
-                # Handle both bytes and string chunks
-                if isinstance(chunk, bytes):
-                    buffer += chunk.decode("utf-8")
-                else:
-                    buffer += chunk
+                # Handle both bytes and string chunks.  Buffer raw bytes and only
+                # decode complete lines: a read may end inside a multi-byte UTF-8
+                # character, and 0x0A never occurs inside one.
+                if isinstance(chunk, str):
+                    chunk = chunk.encode("utf-8")
+                buffer += chunk
 
                 # Split on newlines
-                lines = buffer.split("\n")
+                lines = buffer.split(b"\n")
                 buffer = lines[-1]
 
-                for line in lines[:-1]:
-                    line = line.strip()
-                    if not line:
-                        continue
+                for raw_line in lines[:-1]:
                     try:
+                        # An undecodable line is dropped alone, like any other bad line
+                        line = raw_line.decode("utf-8").strip()
+                        if not line:
+                            continue
                         data = json.loads(line)
                         await self._process_message_data(data)
 
